@@ -1,8 +1,16 @@
 /-! Executable pointer-level model of `LinkedListQueue` (queue.go), statement by statement.
     Heap = three functions `Addr → _` (next, prev, val) plus the six struct fields.
     `fixed = true` is the code as it is now (after the `fix:` commit clearing the dangling link in
-    Shift/Pop); `fixed = false` is the pinned code, kept only for the refutation theorem.
-    `sync.Pool.Get` is modelled as "a fresh zeroed node" (assumption, see DESIGN.md). -/
+    Shift/Pop); `fixed = false` is the pinned code, kept only for the refutation theorems.
+
+    `nodeGCPool` (a `sync.Pool`) is modelled by its contract: `gc` is the multiset of nodes that were
+    `Put` and not yet handed out again; `Get` returns EITHER one of them (as it is, nothing is cleared
+    on the way out) OR a brand-new zeroed node (`New`).  Which one is the runtime's choice (per-P
+    caches, GC dropping the pool): the oracle `pick`, indexed by the number of `Get`s so far, chooses
+    an index into `gc`; out of range means `New()`.  The theorems hold for every oracle.
+
+    Loops that walk a chain carry fuel (`fresh + 1`, more than the number of nodes that exist); a walk
+    that exhausts its fuel is reported as `hang` (the real code would loop forever on a cycle). -/
 
 namespace FpgoVerif.C06
 
@@ -18,20 +26,34 @@ structure Q where
   count : Int
   poolFirst : Option Addr
   nodeCount : Int
+  gc    : List Addr
+  pick  : Nat → Nat
+  gets  : Nat
 
 def upd {β} (f : Addr → β) (a : Addr) (b : β) : Addr → β := fun x => if x = a then b else f x
 
 @[simp] theorem upd_same {β} (f : Addr → β) (a : Addr) (b : β) : upd f a b a = b := by simp [upd]
 @[simp] theorem upd_other {β} (f : Addr → β) (a x : Addr) (b : β) (h : x ≠ a) : upd f a b x = f x := by simp [upd, h]
 
-def init : Q := ⟨fun _ => none, fun _ => none, fun _ => none, 0, none, none, 0, none, 0⟩
+/-- `NewLinkedListQueue` under a given `sync.Pool` oracle -/
+def initWith (pick : Nat → Nat) : Q :=
+  ⟨fun _ => none, fun _ => none, fun _ => none, 0, none, none, 0, none, 0, [], pick, 0⟩
 
-/-- generateNode: from the free list, else a fresh zeroed node (sync.Pool.Get) -/
-def generateNode (q : Q) : Q × Addr :=
-  match q.poolFirst with
-  | none => ({ q with fresh := q.fresh + 1,
+/-- the driver's oracle: `Get` hands back the most recently `Put` node whenever there is one -/
+def init : Q := initWith (fun _ => 0)
+
+/-- `q.nodeGCPool.Get()`: a node that was `Put` earlier (unchanged), or `New()` = a fresh zeroed node -/
+def poolGet (q : Q) : Q × Addr :=
+  match q.gc[q.pick q.gets]? with
+  | some a => ({ q with gets := q.gets + 1, gc := q.gc.erase a }, a)
+  | none => ({ q with gets := q.gets + 1, fresh := q.fresh + 1,
                       next := upd q.next q.fresh none, prev := upd q.prev q.fresh none,
                       val := upd q.val q.fresh none }, q.fresh)
+
+/-- generateNode: from the free list (unlinking it), else from the sync.Pool -/
+def generateNode (q : Q) : Q × Addr :=
+  match q.poolFirst with
+  | none => poolGet q
   | some n => ({ q with nodeCount := q.nodeCount - 1, poolFirst := q.next n,
                         next := upd q.next n none, prev := upd q.prev n none }, n)
 
@@ -85,40 +107,37 @@ def pop (fixed : Bool) (q : Q) : Q × Out :=
     | none => (q2, .panic)
     | some v => (recycleNode q2 n, .ok v)
 
-
-
 def peek (q : Q) : Out :=
   match q.first with
   | none => .empty
   | some n => match q.val n with | none => .panic | some v => .ok v
 
-/-- putAllIntoPool: walk `next` from `o`, zeroing nodes (fuel-bounded) -/
-def zeroWalk : Nat → Q → Option Addr → Q
-  | 0, q, _ => q
-  | _, q, none => q
-  | fuel + 1, q, some n =>
-    let nx := q.next n
-    zeroWalk fuel { q with val := upd q.val n none, prev := upd q.prev n none, next := upd q.next n none } nx
+/-- putAllIntoPool: walk `next` from `o`; every node is zeroed and `Put` into the sync.Pool.
+    `none` = fuel exhausted (the real loop would not terminate) -/
+def putAllIntoPool : Nat → Q → Option Addr → Option Q
+  | 0, q, o => match o with | none => some q | some _ => none
+  | fuel + 1, q, o =>
+    match o with
+    | none => some q
+    | some n =>
+      putAllIntoPool fuel { q with val := upd q.val n none, prev := upd q.prev n none,
+                                   next := upd q.next n none, gc := n :: q.gc } (q.next n)
 
-def clearNodePool (q : Q) : Q :=
-  let q := zeroWalk (q.fresh + 1) q q.poolFirst
-  { q with nodeCount := 0, poolFirst := none }
+def clearNodePool (q : Q) : Option Q :=
+  (putAllIntoPool (q.fresh + 1) q q.poolFirst).map fun q => { q with nodeCount := 0, poolFirst := none }
 
-/-- Clear: the chain becomes the node pool; Val and Prev are cleared along `next` -/
-def clearWalk : Nat → Q → Option Addr → Q
-  | 0, q, _ => q
-  | _, q, none => q
-  | fuel + 1, q, some n =>
-    clearWalk fuel { q with val := upd q.val n none, prev := upd q.prev n none } (q.next n)
+/-- the loop of Clear: Val and Prev are cleared along `next` -/
+def clearWalk : Nat → Q → Option Addr → Option Q
+  | 0, q, o => match o with | none => some q | some _ => none
+  | fuel + 1, q, o =>
+    match o with
+    | none => some q
+    | some n => clearWalk fuel { q with val := upd q.val n none, prev := upd q.prev n none } (q.next n)
 
-def clear (q : Q) : Q :=
+/-- Clear: the chain becomes the node pool (the previous free list is dropped) -/
+def clear (q : Q) : Option Q :=
   let q := { q with poolFirst := q.first, nodeCount := q.count }
-  let q := clearWalk (q.fresh + 1) q q.poolFirst
-  { q with first := none, last := none, count := 0 }
-
-def freshNode (q : Q) : Q × Addr :=
-  ({ q with fresh := q.fresh + 1, next := upd q.next q.fresh none, prev := upd q.prev q.fresh none,
-            val := upd q.val q.fresh none }, q.fresh)
+  (clearWalk (q.fresh + 1) q q.poolFirst).map fun q => { q with first := none, last := none, count := 0 }
 
 /-- the `for n > 0` loop of KeepNodePoolCount -/
 def keepLoop : Nat → Q → Addr → Q × Addr
@@ -127,71 +146,161 @@ def keepLoop : Nat → Q → Addr → Q × Addr
     match q.next last with
     | some nx => keepLoop n q nx
     | none =>
-      let (q, f) := freshNode q
+      let (q, f) := poolGet q
       keepLoop n { q with next := upd q.next last (some f) } f
 
-def keepNodePoolCount (q : Q) (n : Int) : Q :=
+/-- `last := q.nodePoolFirst; if last == nil { last = Get(); q.nodePoolFirst = last }` -/
+def keepStart (q : Q) : Q × Addr :=
+  match q.poolFirst with
+  | some l => (q, l)
+  | none => let r := poolGet q; ({ r.1 with poolFirst := some r.2 }, r.2)
+
+def keepNodePoolCount (q : Q) (n : Int) : Option Q :=
   if n ≤ 0 then clearNodePool q else
-  let q := { q with nodeCount := n }
-  let (q, last) := match q.poolFirst with
-    | some l => (q, l)
-    | none => let (q, f) := freshNode q; ({ q with poolFirst := some f }, f)
-  let (q, last) := keepLoop (n - 1).toNat q last
-  let q := zeroWalk (q.fresh + 1) q (q.next last)
-  { q with next := upd q.next last none }
+  let s := keepStart { q with nodeCount := n }
+  let r := keepLoop (n - 1).toNat s.1 s.2
+  (putAllIntoPool (r.1.fresh + 1) r.1 (r.1.next r.2)).map fun q => { q with next := upd q.next r.2 none }
 
-def showOut : Out → String
-  | .ok v => s!"ok {v}" | .empty => "empty" | .panic => "panic"
+/-- `VerifNodeCount`: length of the free list by walking it (`none` = the walk does not end) -/
+def walkLen : Nat → (Addr → Option Addr) → Option Addr → Option Nat
+  | 0, _, o => match o with | none => some 0 | some _ => none
+  | fuel + 1, f, o =>
+    match o with
+    | none => some 0
+    | some n => (walkLen fuel f (f n)).map (· + 1)
 
-/-- one protocol token; `fixed` selects pinned vs repaired Shift/Pop -/
-def stepTok (fixed : Bool) (q : Q) (tok : String) : Q × String :=
+/-! ### Operations, observations, histories -/
+
+inductive Op
+  | offer (v : Int) | unshift (v : Int) | shift | pop | peek | count | clear
+  | keep (n : Int) | clearPool | poolInfo | bad
+deriving DecidableEq, Repr
+
+inductive Obs
+  | nil | ok (v : Int) | empty | n (c : Int) | pool (counter : Int) (walked : Option Nat)
+  | panic | hang | bad
+deriving DecidableEq, Repr
+
+def obsOfOut : Out → Obs
+  | .ok v => .ok v | .empty => .empty | .panic => .panic
+
+/-- one method call on the model; `fixed` selects pinned vs repaired Shift/Pop -/
+def stepF (fixed : Bool) (q : Q) : Op → Q × Obs
+  | .offer v => (offer q v, .nil)
+  | .unshift v => (unshift q v, .nil)
+  | .shift => let (q, o) := shift fixed q; (q, obsOfOut o)
+  | .pop => let (q, o) := pop fixed q; (q, obsOfOut o)
+  | .peek => (q, obsOfOut (peek q))
+  | .count => (q, .n q.count)
+  | .clear => match clear q with | some q' => (q', .nil) | none => (q, .hang)
+  | .keep n => match keepNodePoolCount q n with | some q' => (q', .nil) | none => (q, .hang)
+  | .clearPool => match clearNodePool q with | some q' => (q', .nil) | none => (q, .hang)
+  | .poolInfo => (q, .pool q.nodeCount (walkLen (q.fresh + 1) q.next q.poolFirst))
+  | .bad => (q, .bad)
+
+/-- the code as it is now -/
+def step (q : Q) (op : Op) : Q × Obs := stepF true q op
+
+def runF (fixed : Bool) : Q → List Op → List Obs
+  | _, [] => []
+  | q, op :: ops => (stepF fixed q op).2 :: runF fixed (stepF fixed q op).1 ops
+
+def run (q : Q) (ops : List Op) : List Obs := runF true q ops
+
+/-- the state after a history -/
+def stateAfter (q : Q) (ops : List Op) : Q := ops.foldl (fun q op => (step q op).1) q
+
+/-! ### Spec: the ideal double-ended sequence (plus the ideal size of the free list) -/
+
+structure Ideal where
+  items : List Int
+  spare : Nat          -- number of recycled nodes kept for reuse
+deriving DecidableEq, Repr
+
+def specStep (s : Ideal) : Op → Ideal × Obs
+  | .offer v => ({ items := s.items ++ [v], spare := s.spare - 1 }, .nil)
+  | .unshift v => ({ items := v :: s.items, spare := s.spare - 1 }, .nil)
+  | .shift => match s.items with
+    | [] => (s, .empty)
+    | a :: t => ({ items := t, spare := s.spare + 1 }, .ok a)
+  | .pop => match s.items.getLast? with
+    | none => (s, .empty)
+    | some a => ({ items := s.items.dropLast, spare := s.spare + 1 }, .ok a)
+  | .peek => match s.items with
+    | [] => (s, .empty)
+    | a :: _ => (s, .ok a)
+  | .count => (s, .n s.items.length)
+  | .clear => ({ items := [], spare := s.items.length }, .nil)
+  | .keep n => ({ s with spare := n.toNat }, .nil)
+  | .clearPool => ({ s with spare := 0 }, .nil)
+  | .poolInfo => (s, .pool s.spare (some s.spare))
+  | .bad => (s, .bad)
+
+def specRun : Ideal → List Op → List Obs
+  | _, [] => []
+  | s, op :: ops => (specStep s op).2 :: specRun (specStep s op).1 ops
+
+def ideal0 : Ideal := ⟨[], 0⟩
+
+/-! ### Line protocol -/
+
+def parseInt (s : String) (k : Int → Op) : Op :=
+  match s.toInt? with | some i => k i | none => .bad
+
+/-- `o:<v>` Offer, `O:<v>` Put, `H:<v>` Push, `u:<v>` Unshift, `s` Shift, `P` Poll, `T` Take, `p` Pop,
+    `k` Peek, `c` Count, `x` Clear, `n:<k>` KeepNodePoolCount(k), `z` ClearNodePool, `N` VerifNodeCount -/
+def parseOp (tok : String) : Op :=
   match tok.splitOn ":" with
-  | ["o", v] => (offer q v.toInt!, "nil")
-  | ["u", v] => (unshift q v.toInt!, "nil")
-  | ["s"] => let (q, o) := shift fixed q; (q, showOut o)
-  | ["p"] => let (q, o) := pop fixed q; (q, showOut o)
-  | ["k"] => (q, showOut (peek q))
-  | ["c"] => (q, s!"n {q.count}")
-  | ["x"] => (clear q, "nil")
-  | ["n", v] => (keepNodePoolCount q v.toInt!, "nil")
-  | ["z"] => (clearNodePool q, "nil")
-  | _ => (q, "bad-op")
+  | ["o", v] => parseInt v .offer
+  | ["O", v] => parseInt v .offer
+  | ["H", v] => parseInt v .offer
+  | ["u", v] => parseInt v .unshift
+  | ["s"] => .shift
+  | ["P"] => .shift
+  | ["T"] => .shift
+  | ["p"] => .pop
+  | ["k"] => .peek
+  | ["c"] => .count
+  | ["x"] => .clear
+  | ["n", v] => parseInt v .keep
+  | ["z"] => .clearPool
+  | ["N"] => .poolInfo
+  | _ => .bad
 
-def runCase (fixed : Bool) (line : String) : String :=
-  let toks := ((line.splitOn ";").map (fun t => t.trimAscii.toString)).filter (· ≠ "")
-  let (_, outs) := toks.foldl (fun (acc : Q × List String) t =>
-    let (q, o) := stepTok fixed acc.1 t
-    (q, o :: acc.2)) (init, [])
-  " | ".intercalate outs.reverse
+def parseLine (line : String) : List Op :=
+  (((line.splitOn ";").map (fun t => t.trimAscii.toString)).filter (· ≠ "")).map parseOp
 
+def showObs : Obs → String
+  | .nil => "nil"
+  | .ok v => s!"ok {v}"
+  | .empty => "empty"
+  | .n c => s!"n {c}"
+  | .pool c (some w) => s!"pool {c} {w}"
+  | .pool c none => s!"pool {c} cycle"
+  | .panic => "panic"
+  | .hang => "hang"
+  | .bad => "bad-op"
 
+/-- a case whose real execution does not terminate is reported as the single word `hang` -/
+def showCase (outs : List Obs) : String :=
+  if outs.contains .hang then "hang" else " | ".intercalate (outs.map showObs)
 
-/-- protocol entry point: `o:<v> ; u:<v> ; s ; p ; k ; c ; x ; n:<k> ; z` -/
-def handle (line : String) : String := runCase true line
+def runCase (fixed : Bool) (line : String) : String := showCase (runF fixed init (parseLine line))
 
-/-- ideal deque, used as the spec-level oracle on a disagreement -/
-def specTok (l : List Int) (tok : String) : List Int × String :=
-  match tok.splitOn ":" with
-  | ["o", v] => (l ++ [v.toInt!], "nil")
-  | ["u", v] => (v.toInt! :: l, "nil")
-  | ["s"] => match l with | [] => (l, "empty") | a :: t => (t, s!"ok {a}")
-  | ["p"] => match l.getLast? with | none => (l, "empty") | some a => (l.dropLast, s!"ok {a}")
-  | ["k"] => match l with | [] => (l, "empty") | a :: _ => (l, s!"ok {a}")
-  | ["c"] => (l, s!"n {l.length}")
-  | ["x"] => ([], "nil")
-  | ["n", _] => (l, "nil")
-  | ["z"] => (l, "nil")
-  | _ => (l, "bad-op")
+/-- protocol entry point -/
+def handle (line : String) : String := showCase (run init (parseLine line))
 
-def specCase (line : String) : String :=
-  let toks := ((line.splitOn ";").map (fun t => t.trimAscii.toString)).filter (· ≠ "")
-  let (_, outs) := toks.foldl (fun (acc : List Int × List String) t =>
-    let (q, o) := specTok acc.1 t
-    (q, o :: acc.2)) ([], [])
-  " | ".intercalate outs.reverse
+def specCase (line : String) : String := showCase (specRun ideal0 (parseLine line))
+
+/-- the property speaks about values, emptiness, counts and panics; the free-list bookkeeping
+    (`pool …` observations) is not part of its statement -/
+def maskPool (obs : String) : String :=
+  " | ".intercalate ((obs.splitOn " | ").map fun t => if t.startsWith "pool " then "pool" else t)
 
 def judge (line impl : String) : String :=
   if impl = specCase line then "allowed implementation agrees with the ideal deque (model differs)"
+  else if maskPool impl = maskPool (specCase line) then
+    "allowed values agree with the ideal deque; only the free-list bookkeeping (nodeCount / free-list length) deviates from the proved invariant"
   else s!"violation ideal deque gives: {specCase line}"
 
 end FpgoVerif.C06
